@@ -53,6 +53,14 @@ def singleBindingCount : Nat := 1
 def litNull : Text := "null".toList
 def litTrue : Text := "true".toList
 def litFalse : Text := "false".toList
+/-- `StringPrimitive._render_value`: `f'"{raw_value}"'`, escaper called with its default
+    `escape_interpolation=False`. -/
+def stringQuotes : Text × Text := (['"'], ['"'])
+def stringEscapesInterpolation : Bool := false
+/-- Order of the type tests in `coerce_expression` / `_primitive_cls_from_value` (`bool` is tested
+    before `int`: `True` is a boolean, not the integer 1). The constructors of `Elem` are these classes. -/
+def coerceOrder : List String := ["NixExpression", "None", "bool", "int", "float", "list", "str"]
+def primitiveOrder : List String := ["bool", "None", "int", "str"]
 
 /-! ## Construction -/
 
@@ -120,7 +128,8 @@ def renderElem : Elem → Nat → Bool → Text
   | .bool b, i, inl => addTrivia (if b then litTrue else litFalse) i inl
   | .int n, i, inl => addTrivia (pyIntStr n) i inl
   | .float r, i, inl => addTrivia r i inl
-  | .str s, i, inl => addTrivia ('"' :: escapeNix false s ++ ['"']) i inl
+  | .str s, i, inl =>
+    addTrivia (stringQuotes.1 ++ escapeNix stringEscapesInterpolation s ++ stringQuotes.2) i inl
   | .list xs, i, inl =>
     -- `_auto_multiline` (self.multiline is None, no inner trivia)
     let multiline :=
